@@ -4,6 +4,12 @@
 //   loc get <hex bytes | ->    ->  <code> | <name>,<name>… | <country> | <ccode> | err:0|1        (strings in hex)
 //   loc table lang|country     ->  the tables as the COMPILER sees them, `code:name` pairs in hex
 //   loc reset                  ->  ok
+//   loc static <k>             ->  <hex of the k-th fixed string> => <what get returned for it when it was called DURING STATIC
+//                                  INITIALISATION of this translation unit>, `none` past the end.  This file precedes
+//                                  LocaleInfo.cpp on the link line, so its initialisers run first — the situation of an
+//                                  application with `static const auto g_locale = LocaleInfo::get(getenv("LANG"));`.
+//                                  get() is a function of its argument and two constant tables; the property puts no
+//                                  condition on WHEN it is called.
 //
 // What makes silent damage visible:
 //  * the result object is constructed (guaranteed elision + NRVO) into storage pre-filled with 0xA5, and a large
@@ -18,6 +24,7 @@
 
 #include <cstdint>
 #include <cstdio>
+#include <cstdlib>
 #include <cstring>
 #include <iostream>
 #include <new>
@@ -105,6 +112,16 @@ static std::string runGet(const std::string &arg) {
     return out;
 }
 
+// calls made before main, and before any dynamic initialiser of LocaleInfo.cpp
+static const char *const staticInputs[] = {"en_GB", "hu_HU.UTF-8", "English_United States", "Polish_PL", "de_Germany.x", "zz_ZZ", "", "en",
+                                           "Norwegian_NO", "pl_Poland", "fr_FR.ISO-8859-1", "en_Narnia", "zu_ZW", "Zulu_Zimbabwe.UTF-8"};
+static std::vector<std::string> runStatic() {
+    std::vector<std::string> r;
+    for (const char *s : staticInputs) r.push_back(hexOf(s, strlen(s)) + " => " + runGet(s));
+    return r;
+}
+static const std::vector<std::string> staticResults = runStatic();
+
 static std::string showTable(const LocaleInfo::_info *t, int n) {
     std::string out;
     for (int i = 0; i < n; ++i) {
@@ -138,6 +155,9 @@ int main() {
             } else if (t[1] == "get" && t.size() == 3 && parseHex(t[2], arg)) {
                 if (arg.find('\0') != std::string::npos) out = "bad-op";      // not a C string
                 else out = runGet(arg);
+            } else if (t[1] == "static" && t.size() == 3) {
+                size_t k = std::strtoul(t[2].c_str(), nullptr, 10);
+                out = k < staticResults.size() ? staticResults[k] : "none";
             } else if (t[1] == "table" && t.size() == 3 && t[2] == "lang") {
                 out = showTable(LocaleInfo::languageInfo, LocaleInfo::languagesCount);
             } else if (t[1] == "table" && t.size() == 3 && t[2] == "country") {
